@@ -104,3 +104,18 @@ func init() {
 			"\t\tRaiseErrorOnNotFound: stmt.RaiseErrorOnNotFound,\n", "\t\tRaiseErrorOnNotFound: stmt.RaiseErrorOnNotFound && len(stmt.Clauses) > 0,\n"}}},
 	)
 }
+
+// more behaviour-preserving refactors (rules with syntactic recognisers)
+func init() {
+	addMutants(
+		Mutant{Name: "n108-backfill-reversed-loop-local-step", Property: "*", Rule: "NEUTRAL", Edits: []Edit{{"callbacks/create.go",
+			"\t\t\t\t\t\t_, isZero := pkField.ValueOf(db.Statement.Context, rv)\n\t\t\t\t\t\tif isZero {\n\t\t\t\t\t\t\tdb.AddError(pkField.Set(db.Statement.Context, rv, insertID))\n\t\t\t\t\t\t\tinsertID -= pkField.AutoIncrementIncrement\n\t\t\t\t\t\t}",
+			"\t\t\t\t\t\tif _, isZero := pkField.ValueOf(db.Statement.Context, rv); isZero {\n\t\t\t\t\t\t\tdb.AddError(pkField.Set(db.Statement.Context, rv, insertID))\n\t\t\t\t\t\t\tinsertID -= pkField.AutoIncrementIncrement\n\t\t\t\t\t\t}"}}},
+		Mutant{Name: "n109-map-backfill-guard-negated-first", Property: "*", Rule: "NEUTRAL", Edits: []Edit{{"callbacks/create.go",
+			"\t\t\tfor _, mapValue := range mapValues {\n\t\t\t\tif mapValue != nil {\n\t\t\t\t\tmapValue[pkFieldName] = insertID\n\t\t\t\t}\n\t\t\t\tinsertID += schema.DefaultAutoIncrementIncrement\n\t\t\t}",
+			"\t\t\tfor _, mapValue := range mapValues {\n\t\t\t\tif mapValue == nil {\n\t\t\t\t\tinsertID += schema.DefaultAutoIncrementIncrement\n\t\t\t\t\tcontinue\n\t\t\t\t}\n\t\t\t\tmapValue[pkFieldName] = insertID\n\t\t\t\tinsertID += schema.DefaultAutoIncrementIncrement\n\t\t\t}"}}},
+		Mutant{Name: "n110-rollback-nil-check-merged", Property: "*", Rule: "NEUTRAL", Edits: []Edit{{"finisher_api.go",
+			"\tif committer, ok := db.Statement.ConnPool.(TxCommitter); ok && committer != nil {\n\t\tif !reflect.ValueOf(committer).IsNil() {\n\t\t\tdb.AddError(committer.Rollback())\n\t\t}\n\t} else {\n\t\tdb.AddError(ErrInvalidTransaction)\n\t}\n\treturn db",
+			"\tcommitter, ok := db.Statement.ConnPool.(TxCommitter)\n\tif !ok || committer == nil {\n\t\tdb.AddError(ErrInvalidTransaction)\n\t\treturn db\n\t}\n\tif !reflect.ValueOf(committer).IsNil() {\n\t\tdb.AddError(committer.Rollback())\n\t}\n\treturn db"}}},
+	)
+}
